@@ -9,6 +9,7 @@ CONSTANTS
   Discipline = "full"
   DotAll = TRUE
   FindFirst = FALSE
+  AffixFrom = 0
   Emit = "match"
   BlockLen = 0
 SPECIFICATION ESpec
